@@ -21,6 +21,26 @@ leave the handle uncached.
 
 A history case is ``(value, word)`` (loader ``ok``, the form of older replay
 records) or ``(value, loader, word)``.
+
+Loaded value ``finaliser``: a resource whose ``__del__`` looks at its own
+handle (``if handle.cached: handle()``).  The harness keeps weak references
+only, the handle's cache is the one strong reference, so CPython runs the
+finaliser *inside* ``Handle.clear()``; what it saw is judged after the
+operation (it must not see cached == True together with an access that
+returns something no load() produced).
+
+Parts ``loop-fixpoint/<loop>/<n>`` and ``loop-histories/<n>``: a real
+``SimpleLoop`` (dummy time function, never started) / a bare ``Loop``
+subclass over n counting handles whose ``load()`` returns a fresh real
+``World``; operations ``loop.switch(h_i, clear_current, clear_next)`` for all
+four flag combinations, ``h_i()``, ``h_i.clear()``.  A loop history case is
+``(loop, n, word)`` over the letters of ``loop_letters(n)``.
+
+The driver reads handles through ``cached``, ``__call__``, ``clear()``,
+``load()`` and the map / static-map / world-file / loop access paths only;
+the private representation of ``Handle`` enters the state key through the
+generic object-graph walk alone, and a representation the walk cannot
+describe degrades the key (hit ``key_without_object_graph``), never the run.
 """
 import atexit
 import collections
@@ -30,10 +50,11 @@ import shutil
 import sys
 import tempfile
 import types
+import weakref
 
 from mc import env  # noqa: F401  (binds desper to the tree under test)
 from mc import kernel
-from mc.canon import canon
+from mc.canon import canon, CanonError
 from mc.report import Violation, HarnessError
 
 import desper
@@ -50,8 +71,13 @@ RULE = ('Operations: h(), m["r/k"], m["r"]["k"], s.r.k, s["r"]["k"], '
         'handle, loads the world with m["w/one"] and returns the object(s) '
         'the component(s) received (then clears the world handle again).  '
         'Everything is repeated per loaded value in {None, 0, "", [], '
-        'object(), __eq__ -> False, __eq__ raises, __bool__ raises} x loader '
-        'in {ok, raise_first}; raise_first = the first load() call of every '
+        'object(), __eq__ -> False, __eq__ raises, __bool__ raises, '
+        '__eq__ -> True for anything (and __ne__ -> False), __eq__ / __ne__ '
+        '-> an object whose __bool__ raises (unhashable, array-like), '
+        '"finaliser" = an object whose __del__ reads cached of the handle '
+        'it came from and, if True, calls the handle; the handle holds the '
+        'only strong reference, so the finaliser runs inside clear()} x '
+        'loader in {ok, raise_first}; raise_first = the first load() call of every '
         'clear-delimited epoch raises, the next one succeeds.  Parts '
         '"fixpoint/<value>[/raise_first]" (E1): breadth-first search, states '
         'merged on the canonical key (model (successful access since clear, '
@@ -68,13 +94,37 @@ RULE = ('Operations: h(), m["r/k"], m["r"]["k"], s.r.k, s["r"]["k"], '
         'named shortcut (cache hit on a falsy value, reload after clear, '
         'static attribute access, clear of an uncached handle, two clears in '
         'a row, load that raises, access after a failed load, reference '
-        'from a world file ...).')
+        'from a world file, finaliser running inside clear() ...).  '
+        'Loop parts: a real SimpleLoop built with a dummy time function '
+        '(never started) and a bare Loop subclass (only loop() supplied), n '
+        'counting handles whose load() returns a fresh World(); operations '
+        'h_i(), h_i.clear() and loop.switch(h_i, clear_current, clear_next) '
+        'for the four flag combinations (4n + 2n letters).  Parts '
+        '"loop-fixpoint/<loop>/<n>" (E1, n = 1, 2; thorough also 3): '
+        'breadth-first search to fixpoint, states merged on (handle last '
+        'switched to, was it cleared since, per handle: accessed since its '
+        'last clear / had an earlier epoch) + generic object graph of loop, '
+        'handles and worlds.  Parts "loop-histories/<n>" (no merging): every '
+        'sequence of length D over the alphabet for both loops (quick n=2 '
+        'D=4: 2 x 12^4; thorough n=2 D=5: 2 x 12^5 and n=3 D=4: 2 x 18^4).  '
+        'After every operation: load() calls of every handle during the '
+        'operation == what the documented order (clear the handle being '
+        'left, clear the target, then access the target) asks for, i.e. '
+        'exactly one load since the last clear (by clear(), clear_current or '
+        'clear_next) for a handle accessed since, none otherwise; cached of '
+        'every handle == accessed since its last clear; h_i() returns the '
+        'object of its epoch; loop.current_world_handle is the handle last '
+        'switched to, evaluating it while cached does not load and returns '
+        'the object of its epoch, which is loop.current_world unless the '
+        'handle was cleared from outside since the switch.')
 
 VALUES = ('none', 'zero', 'empty_str', 'empty_list', 'object', 'eq_false',
-          'eq_raises', 'bool_raises')
+          'eq_raises', 'bool_raises', 'eq_true', 'eq_nonbool', 'finaliser')
 BAND = {'none': 'falsy', 'zero': 'falsy', 'empty_str': 'falsy',
         'empty_list': 'falsy', 'object': 'plain', 'eq_false': 'unusual',
-        'eq_raises': 'unusual', 'bool_raises': 'unusual'}
+        'eq_raises': 'unusual', 'bool_raises': 'unusual',
+        'eq_true': 'unusual', 'eq_nonbool': 'unusual',
+        'finaliser': 'finaliser'}
 LOADERS = ('ok', 'raise_first')
 
 ACCESS = ('call', 'map_composite', 'map_chained', 'static_attr',
@@ -182,6 +232,74 @@ class BoolRaises:
         raise RuntimeError('C12 harness: __len__ must not be used')
 
 
+class EqTrue:
+    """Wildcard: equal to anything (like unittest.mock.ANY)."""
+
+    def __eq__(self, other):
+        return True
+
+    def __ne__(self, other):
+        return False
+
+    __hash__ = object.__hash__
+
+
+class NoTruth:
+    """What ``EqNonBool() == x`` gives: an object without a truth value
+    (the mask of an element-wise comparison)."""
+
+    def __bool__(self):
+        raise ValueError('C12 harness: the truth value of an element-wise '
+                         'comparison is ambiguous')
+
+
+class EqNonBool:
+    """Array-like: == / != are element-wise, unhashable."""
+
+    def __eq__(self, other):
+        return NoTruth()
+
+    def __ne__(self, other):
+        return NoTruth()
+
+    __hash__ = None
+
+
+class FinaliserValue:
+    """Resource whose finaliser looks at the handle it came from, the way
+    an asset tracker / leak reporter does: ``if handle.cached: handle()``
+    (never forces a load).  The handle is known through a weak reference and
+    the harness keeps weak references only, so the handle's cache is the one
+    strong reference and CPython runs ``__del__`` inside ``Handle.clear()``.
+    What the finaliser saw is appended to ``handle.hx_fin`` (it cannot
+    raise) and judged by ``HandleDriver._finaliser_records``."""
+
+    def __init__(self, handle, token):
+        self.token = token
+        self.href = weakref.ref(handle)
+
+    def __del__(self):
+        h = self.href()
+        if h is None:
+            return            # the whole harness context is garbage
+        rec = dict(token=self.token, inside=h.hx_in_clear)
+        try:
+            calls0 = h.hx_calls
+            flag = h.cached
+            rec['cached'] = flag if type(flag) is bool else repr(flag)
+            if flag is True:
+                got = h()
+                rec['loads'] = h.hx_calls - calls0
+                if isinstance(got, FinaliserValue) and got.href() is h:
+                    rec['got'] = ['loaded', got.token]
+                else:
+                    rec['got'] = ['never_loaded', type(got).__name__]
+                del got
+        except Exception as exc:
+            rec['raised'] = f'{type(exc).__name__}: {exc}'
+        h.hx_fin.append(rec)
+
+
 MAKERS = {
     'none': lambda: None,
     'zero': lambda: 0,
@@ -191,6 +309,9 @@ MAKERS = {
     'eq_false': EqFalse,
     'eq_raises': EqRaises,
     'bool_raises': BoolRaises,
+    'eq_true': EqTrue,
+    'eq_nonbool': EqNonBool,
+    # 'finaliser': FinaliserValue(handle, token), see CountingHandle.load
 }
 
 
@@ -208,23 +329,49 @@ class CountingHandle(desper.Handle):
         self.hx_attempts = 0        # load() calls in the current epoch ...
         self.hx_failed = 0          # ... that raised
         self.hx_loads = 0           # ... that returned
-        self.hx_objs = []           # what they returned, this epoch
-        self.hx_all = []            # everything ever returned (kept alive)
+        # what they returned, this epoch (value 'finaliser': weak
+        # references, the handle must hold the only strong one)
+        self.hx_objs = []
+        self.hx_all = []            # everything ever returned (kept alive;
+        #                             'finaliser': nothing)
+        self.hx_calls = 0           # load() calls ever (never reset)
+        self.hx_in_clear = False    # the harness is inside h.clear()
+        self.hx_fin = []            # what the finalisers observed
 
     def load(self):
         self.hx_attempts += 1
+        self.hx_calls += 1
         if self.hx_loader == 'raise_first' and self.hx_attempts == 1:
             self.hx_failed += 1
             raise LoadFailed('C12 harness: the resource is not there yet')
-        value = MAKERS[self.hx_spec]()
         self.hx_loads += 1
+        if self.hx_spec == 'finaliser':
+            value = FinaliserValue(self, self.hx_calls)
+            self.hx_objs.append(weakref.ref(value))
+            return value
+        value = MAKERS[self.hx_spec]()
         self.hx_objs.append(value)
         self.hx_all.append(value)
         return value
 
+    def hx_index(self, obj):
+        """Position of obj among this epoch's loaded objects (identity)."""
+        for i, entry in enumerate(self.hx_objs):
+            if _same(entry, obj):
+                return i
+        return None
+
 
 class Ctx:
     pass
+
+
+def _same(entry, obj):
+    """Is obj the loaded object remembered as entry (the object itself, or
+    a weak reference to it for the value kind 'finaliser')?"""
+    if isinstance(entry, weakref.ref):
+        return entry() is obj
+    return entry is obj
 
 
 def _is_in(obj, seq):
@@ -240,7 +387,7 @@ def part_name(spec, loader):
 
 class HandleDriver:
     def __init__(self, spec, loader='ok'):
-        if spec not in MAKERS or loader not in LOADERS:
+        if spec not in VALUES or loader not in LOADERS:
             raise HarnessError(f'unknown value / loader {spec!r} {loader!r}')
         self.spec = spec
         self.loader = loader
@@ -270,6 +417,8 @@ class HandleDriver:
         ctx.accessed = False        # model: an access returned since clear
         ctx.failed = False          # model: an access failed since clear
         ctx.epoch_obj = None        # what this epoch's accesses returned
+        #                             (an entry of h.hx_objs, see _same)
+        ctx.fin_seen = 0            # finaliser records already judged
         ctx.had_epoch = False       # some earlier epoch had an access
         ctx.last_op = None
         ctx.last_failed = False
@@ -316,6 +465,9 @@ class HandleDriver:
             for c in comps:
                 received = list(c.args) + [c.kwargs[k]
                                            for k in sorted(c.kwargs)]
+                # harness: the discarded world is cyclic garbage; it must
+                # not keep the resource alive until the collector runs
+                c.args, c.kwargs = (), {}
                 if len(received) != 1:
                     raise Violation(
                         'world_reference_delivered',
@@ -339,11 +491,15 @@ class HandleDriver:
         h = ctx.h
         ctx.hist = ctx.hist + (kind,)
         if kind == 'clear':
+            h.hx_in_clear = True
             try:
                 h.clear()
             except Exception as exc:
                 raise Violation('clear_raises', f'h.clear() raised {exc!r}',
                                 **self._features())
+            finally:
+                h.hx_in_clear = False
+            self._finaliser_records(ctx)
             if not ctx.accessed:
                 ctx.hits['clear_uncached'] += 1
             if ctx.last_op == 'clear':
@@ -380,6 +536,7 @@ class HandleDriver:
         attempts = h.hx_attempts - attempts0
         failed = h.hx_failed - failed0
         first = not ctx.accessed
+        self._finaliser_records(ctx)
 
         # cached tells whether the next access will load
         if (attempts >= 1) != (not flag):
@@ -430,18 +587,19 @@ class HandleDriver:
         # identity
         for got in objs:
             if first:
-                if got is not h.hx_objs[0]:
+                if not _same(h.hx_objs[0], got):
                     raise Violation(
                         'identical_object',
                         f'{kind} returned {type(got).__name__}, not the '
                         f'object load() produced', **self._features(kind))
-            elif got is not ctx.epoch_obj:
+            elif not _same(ctx.epoch_obj, got):
                 raise Violation(
                     'identical_object',
                     f'{kind} returned a different object than the earlier '
                     f'accesses of this epoch', **self._features(kind))
         if first:
-            ctx.epoch_obj = objs[0]
+            ctx.epoch_obj = h.hx_objs[0]
+        del objs, got
 
         # named shortcuts
         if first and ctx.failed:
@@ -454,8 +612,13 @@ class HandleDriver:
             ctx.hits['cache_hit'] += 1
             if BAND[self.spec] == 'falsy':
                 ctx.hits['falsy_value'] += 1
-            if self.spec in ('eq_false', 'eq_raises'):
+            if self.spec in ('eq_false', 'eq_raises', 'eq_true',
+                             'eq_nonbool'):
                 ctx.hits['unusual_eq'] += 1
+            if self.spec == 'eq_true':
+                ctx.hits['eq_always_true_value'] += 1
+            if self.spec == 'eq_nonbool':
+                ctx.hits['eq_nonbool_value'] += 1
             if self.spec == 'bool_raises':
                 ctx.hits['bool_raises'] += 1
         if kind == 'static_attr':
@@ -475,6 +638,43 @@ class HandleDriver:
         ctx.accessed = True
         ctx.last_op = kind
         ctx.last_failed = False
+
+    def _finaliser_records(self, ctx):
+        """Judge what the finalisers of released 'finaliser' values saw
+        (normally: one record per clear() of a cached handle, written while
+        clear() was running).  cached == False: the finaliser did nothing.
+        cached == True: its h() must have returned an object load()
+        produced, without loading."""
+        h = ctx.h
+        records, ctx.fin_seen = h.hx_fin[ctx.fin_seen:], len(h.hx_fin)
+        for rec in records:
+            when = 'inside_clear' if rec['inside'] else 'outside_clear'
+            f = dict(self._features(), when=when)
+            what = (f'the finaliser of the released resource ran '
+                    f'{"inside" if rec["inside"] else "outside"} h.clear()')
+            if 'raised' in rec:
+                raise Violation(
+                    'access_raises', f'{what}: reading h.cached'
+                    + (' (True) and calling h()' if rec.get('cached') is True
+                       else '') + f' raised {rec["raised"]}', **f)
+            if rec['cached'] is True:
+                if rec['loads']:
+                    raise Violation(
+                        'cached_predicts_load', f'{what}: cached was True '
+                        f'but h() called load() {rec["loads"]} time(s)', **f)
+                if rec['got'][0] != 'loaded':
+                    raise Violation(
+                        'identical_object', f'{what}: h.cached was True and '
+                        f'h() returned {rec["got"][1]}, which no load() of '
+                        'this handle produced', **f)
+                ctx.hits['finaliser_sees_cached'] += 1
+            elif rec['cached'] is not False:
+                raise Violation('cached_flag', f'{what}: h.cached is '
+                                f'{rec["cached"]}, not a bool', **f)
+            if rec['inside']:
+                ctx.hits['finaliser_runs_inside_clear'] += 1
+                if rec['cached'] is False:
+                    ctx.hits['finaliser_sees_uncached_inside_clear'] += 1
 
     def _cached(self, ctx, op=None):
         try:
@@ -512,19 +712,418 @@ class HandleDriver:
     def key(self, ctx):
         h = ctx.h
 
+        opaque = []
+
         def namer(o):
-            i = _is_in(o, h.hx_objs)
+            i = h.hx_index(o)
             if i is not None:
                 return f'value{i}'
-            if _is_in(o, h.hx_all) is not None:
+            if (_is_in(o, h.hx_all) is not None
+                    or isinstance(o, FinaliserValue)):
                 return 'stale-value'
+            if type(o) is object:
+                # a bare object() that is not a loaded value: a private
+                # marker of the implementation ("nothing cached").  Named
+                # by the order in which the walk meets it.
+                i = _is_in(o, opaque)
+                if i is None:
+                    i = len(opaque)
+                    opaque.append(o)
+                return f'opaque{i}'
             return None
 
+        model = (ctx.accessed, ctx.failed, h.hx_loads, ctx.had_epoch)
         # filename: the private scratch directory differs from run to run
-        graph = canon([ctx.m, ctx.h, ctx.s], namer=namer,
-                      skip_attrs=('hx_all', 'hx_spec', 'hx_loader',
-                                  'filename'))
-        return ((ctx.accessed, ctx.failed, h.hx_loads, ctx.had_epoch), graph)
+        try:
+            graph = canon([ctx.m, ctx.h, ctx.s], namer=namer,
+                          skip_attrs=('hx_all', 'hx_spec', 'hx_loader',
+                                      'hx_calls', 'hx_fin', 'filename'))
+        except CanonError as exc:
+            # a private representation the generic walk cannot describe is
+            # no reason to stop: states are merged on the model alone (the
+            # unmerged "histories" parts do not depend on the key)
+            ctx.hits['key_without_object_graph'] += 1
+            graph = ('no-graph', str(exc))
+        return (model, graph)
+
+
+# -- Loop.switch reaching Handle.clear() ---------------------------------
+LOOP_KINDS = ('simple', 'bare')
+LOOP_FLAGS = {(False, False): 'none', (True, False): 'clear_current',
+              (False, True): 'clear_next', (True, True): 'clear_both'}
+
+
+def _no_clock():
+    raise HarnessError('C12 never starts the loop: the time function must '
+                       'not be called')
+
+
+class BareLoop(desper.Loop):
+    """The abstract Loop with nothing added: Loop.switch as it is (the
+    SimpleLoop override accesses the target handle once more)."""
+
+    def loop(self):
+        raise HarnessError('C12 never starts the loop')
+
+
+class WorldCountingHandle(desper.Handle):
+    """Real Handle; load() returns a fresh real World and counts."""
+
+    def __init__(self, index):
+        self.hx_index = index
+        self.hx_calls = 0           # load() calls ever
+        self.hx_all = []            # every world ever loaded (kept alive)
+
+    def load(self):
+        self.hx_calls += 1
+        world = desper.World()
+        self.hx_all.append(world)
+        return world
+
+
+def loop_ops(n):
+    """The alphabet over n handles, simplest first."""
+    ops = [('call', i) for i in range(n)]
+    ops += [('clear', i) for i in range(n)]
+    ops += [('switch', i, cc, cn) for cc, cn in LOOP_FLAGS for i in range(n)]
+    return ops
+
+
+def loop_letters(n):
+    return {chr(ord('a') + k): op for k, op in enumerate(loop_ops(n))}
+
+
+def loop_part_name(kind, n):
+    return f'loop-fixpoint/{kind}/{n}'
+
+
+class LoopDriver:
+    """A real loop (never started) over n counting world handles.
+
+    Model, per handle: cached (an access happened since the last clear, by
+    whoever), epoch_obj (what that access returned), had_epoch.  Loop: cur
+    (index of the handle last switched to), fresh (cur was not cleared
+    since that switch).  switch(h, clear_current, clear_next), as documented:
+    clear the handle being left if asked, clear h if asked, then access h.
+    """
+
+    def __init__(self, kind, n):
+        if kind not in LOOP_KINDS or n not in (1, 2, 3):
+            raise HarnessError(f'unknown loop part {kind!r} {n!r}')
+        self.kind = kind
+        self.n = n
+        self.name = loop_part_name(kind, n)
+        self.alphabet = frozenset(loop_ops(n))
+
+    def params(self):
+        return dict(loop=self.kind, handles=self.n,
+                    ops=[list(op) for op in loop_ops(self.n)])
+
+    def initial(self):
+        ctx = Ctx()
+        ctx.hits = collections.Counter()
+        ctx.loop = (desper.SimpleLoop(_no_clock) if self.kind == 'simple'
+                    else BareLoop())
+        ctx.hs = [WorldCountingHandle(i) for i in range(self.n)]
+        ctx.cached = [False] * self.n
+        ctx.epoch_obj = [None] * self.n
+        ctx.had_epoch = [False] * self.n
+        ctx.cur = None
+        ctx.fresh = False
+        ctx.last = None
+        ctx.last_features = dict(path='loop', loop=self.kind, op='start')
+        return ctx
+
+    def ops(self, ctx):
+        return loop_ops(self.n)
+
+    def _features(self, op, ctx=None, prev=None):
+        f = dict(path='loop', loop=self.kind, op=op[0])
+        if op[0] == 'switch':
+            f['flags'] = LOOP_FLAGS[(op[2], op[3])]
+            f['target'] = ('first' if prev is None else
+                           'current' if prev == op[1] else 'other')
+        return f
+
+    def _flag(self, ctx, i, f):
+        try:
+            flag = ctx.hs[i].cached
+        except Exception as exc:
+            raise Violation('cached_raises', f'h{i}.cached raised {exc!r}',
+                            **f)
+        if flag is not True and flag is not False:
+            raise Violation('cached_flag', f'h{i}.cached is {flag!r}, not a '
+                            'bool', **f)
+        return flag
+
+    def apply(self, ctx, op):
+        op = tuple(op)
+        kind, i = op[0], op[1]
+        if op not in self.alphabet:
+            raise HarnessError(f'unknown operation {op!r}')
+        hs, loop = ctx.hs, ctx.loop
+        h = hs[i]
+        prev = ctx.cur
+        f = ctx.last_features = self._features(op, ctx, prev)
+        calls0 = [x.hx_calls for x in hs]
+        flags0 = [self._flag(ctx, j, f) for j in range(self.n)]
+        # -- model: who is cleared, who is accessed
+        cleared = [False] * self.n
+        accessed = None
+        if kind == 'clear':
+            cleared[i] = True
+        elif kind == 'call':
+            accessed = i
+        else:
+            if op[2] and prev is not None:
+                cleared[prev] = True
+            if op[3]:
+                cleared[i] = True
+            accessed = i
+        expect = [0] * self.n
+        if accessed is not None and (cleared[i] or not ctx.cached[i]):
+            expect[i] = 1
+        # -- the real call
+        got = None
+        try:
+            if kind == 'clear':
+                h.clear()
+            elif kind == 'call':
+                got = h()
+            else:
+                loop.switch(h, clear_current=op[2], clear_next=op[3])
+        except Exception as exc:
+            raise Violation(
+                'clear_raises' if kind == 'clear' else 'access_raises',
+                f'{self._show(op)} raised {type(exc).__name__}: {exc}', **f)
+        loads = [x.hx_calls - c for x, c in zip(hs, calls0)]
+        # -- named shortcuts (decided on the model, before it is updated)
+        if kind == 'call':
+            ctx.hits['loop_handle_call_cached' if ctx.cached[i]
+                     else 'loop_handle_call_loads'] += 1
+        elif kind == 'clear':
+            ctx.hits['loop_handle_clear_cached' if ctx.cached[i]
+                     else 'loop_handle_clear_uncached'] += 1
+        else:
+            ctx.hits['loop_switch'] += 1
+        if kind == 'switch':
+            if prev is None:
+                ctx.hits['loop_switch_first'] += 1
+            elif prev == i:
+                if op[2] and ctx.cached[i]:
+                    ctx.hits['loop_switch_self_clear_current'] += 1
+                elif op[3] and ctx.cached[i]:
+                    ctx.hits['loop_switch_self_clear_next'] += 1
+                elif not op[2] and not op[3]:
+                    ctx.hits['loop_switch_self_plain'] += 1
+            else:
+                if op[2] and ctx.cached[prev]:
+                    ctx.hits['loop_switch_other_clear_current'] += 1
+                if op[2] and not ctx.cached[prev]:
+                    ctx.hits['loop_switch_clear_current_uncached'] += 1
+                if op[3] and ctx.cached[i]:
+                    ctx.hits['loop_switch_clear_next_cached'] += 1
+                if not op[3] and ctx.cached[i]:
+                    ctx.hits['loop_switch_to_cached'] += 1
+                if not op[2] and ctx.cached[prev]:
+                    ctx.hits['loop_switch_leaves_cached'] += 1
+        elif kind == 'clear' and prev == i and ctx.cached[i]:
+            ctx.hits['loop_current_handle_cleared_outside'] += 1
+        elif kind == 'call' and prev == i and not ctx.fresh \
+                and not ctx.cached[i]:
+            ctx.hits['loop_current_handle_reloaded_outside'] += 1
+        # -- cached tells whether the next access will load (handles that
+        #    the operation clears first will load whatever cached said)
+        if accessed is not None and not cleared[i] \
+                and (loads[i] >= 1) != (not flags0[i]):
+            raise Violation(
+                'cached_predicts_load',
+                f'h{i}.cached was {flags0[i]} before {self._show(op)} but '
+                f'load() ran {loads[i]} time(s)', **f)
+        # -- loads: at most one per clear-delimited epoch, exactly one if
+        #    the epoch has an access
+        for j in range(self.n):
+            if loads[j] == expect[j]:
+                continue
+            since = expect[j] + (0 if cleared[j] or not ctx.cached[j] else 1)
+            clause = ('reload_after_clear'
+                      if expect[j] == 1 and loads[j] == 0
+                      and (cleared[j] or ctx.had_epoch[j])
+                      else 'load_once_per_epoch')
+            raise Violation(
+                clause,
+                f'{self._show(op)}: load() of h{j} ran {loads[j]} time(s), '
+                f'expected {expect[j]} ('
+                + ('the operation clears it first, ' if cleared[j] else '')
+                + (f'it is accessed, ' if accessed == j else
+                   'it is not accessed, ')
+                + f'{since} load(s) since its last clear expected '
+                f'afterwards)', **f)
+        # -- model step
+        for j in range(self.n):
+            if cleared[j]:
+                if ctx.cached[j]:
+                    ctx.had_epoch[j] = True
+                ctx.cached[j] = False
+                ctx.epoch_obj[j] = None
+                if j == ctx.cur:
+                    ctx.fresh = False
+        if accessed is not None:
+            if expect[i]:
+                ctx.epoch_obj[i] = h.hx_all[-1]
+            ctx.cached[i] = True
+        if kind == 'switch':
+            ctx.cur = i
+            ctx.fresh = True
+        ctx.last = op
+        # -- identity
+        if kind == 'call' and got is not ctx.epoch_obj[i]:
+            raise Violation(
+                'identical_object',
+                f'{self._show(op)} returned '
+                + self._which(ctx, got) + ', not '
+                + ('the object load() just produced' if expect[i] else
+                   'what the earlier accesses of this epoch returned'), **f)
+
+    def _show(self, op):
+        if op[0] == 'switch':
+            args = [f'h{op[1]}']
+            if op[2]:
+                args.append('clear_current=True')
+            if op[3]:
+                args.append('clear_next=True')
+            return f'loop.switch({", ".join(args)})'
+        return f'h{op[1]}()' if op[0] == 'call' else f'h{op[1]}.clear()'
+
+    def _which(self, ctx, obj):
+        for j, h in enumerate(ctx.hs):
+            k = _is_in(obj, h.hx_all)
+            if k is not None:
+                return (f'the world of load #{k + 1} of h{j}'
+                        + (' (scrapped by a clear since)'
+                           if obj is not ctx.epoch_obj[j] else ''))
+        return f'a {type(obj).__name__} no load() produced'
+
+    # -- state oracle ---------------------------------------------------
+    def check(self, ctx):
+        op = ctx.last
+        f = ctx.last_features
+        flags = []
+        for j in range(self.n):
+            flag = self._flag(ctx, j, f)
+            flags.append(flag)
+            if flag != ctx.cached[j]:
+                raise Violation(
+                    'cached_flag',
+                    f'h{j}.cached is {flag} after '
+                    f'{self._show(op) if ctx.last else "construction"} but '
+                    + ('it was accessed since its last clear'
+                       if ctx.cached[j] else
+                       'it was not accessed since its last clear: the next '
+                       'access will load'), **f)
+        if ctx.cur is None:
+            return (tuple(flags), None)
+        loop, h = ctx.loop, ctx.hs[ctx.cur]
+        if loop.current_world_handle is not h:
+            raise Violation(
+                'loop_current_handle',
+                f'loop.current_world_handle is not h{ctx.cur}, the handle '
+                'last switched to', **f)
+        same = None
+        if ctx.cached[ctx.cur]:
+            # evaluating loop.current_world_handle() must not load, and
+            # gives what every other access of this epoch gave
+            calls0 = h.hx_calls
+            try:
+                world = loop.current_world_handle()
+            except Exception as exc:
+                raise Violation(
+                    'access_raises', 'loop.current_world_handle() raised '
+                    f'{type(exc).__name__}: {exc}', **f)
+            if h.hx_calls != calls0:
+                raise Violation(
+                    'load_once_per_epoch',
+                    f'loop.current_world_handle() (h{ctx.cur}, cached) '
+                    f'called load() {h.hx_calls - calls0} more time(s)',
+                    **f)
+            if world is not ctx.epoch_obj[ctx.cur]:
+                raise Violation(
+                    'identical_object',
+                    f'loop.current_world_handle() returned '
+                    + self._which(ctx, world) + ', not the object of this '
+                    'epoch', **f)
+            same = loop.current_world is world
+            if ctx.fresh:
+                # nobody cleared the handle since the loop switched to it
+                if not same:
+                    raise Violation(
+                        'identical_object',
+                        f'after {self._show(op)} loop.current_world is '
+                        + self._which(ctx, loop.current_world)
+                        + f', loop.current_world_handle() is '
+                        + self._which(ctx, world), **f)
+                ctx.hits['loop_world_is_handle_world'] += 1
+        return (tuple(flags), ctx.cur, same)
+
+    # -- canonical key --------------------------------------------------
+    def key(self, ctx):
+        opaque = []
+
+        def namer(o):
+            if type(o) is object:
+                i = _is_in(o, opaque)
+                if i is None:
+                    i = len(opaque)
+                    opaque.append(o)
+                return f'opaque{i}'
+            return None
+
+        model = (ctx.cur, ctx.fresh, tuple(ctx.cached), tuple(ctx.had_epoch))
+        try:
+            # worlds are walked like anything else (which handle / loop
+            # attribute shares which world shows in the walk's back
+            # references)
+            graph = canon([ctx.loop] + ctx.hs, namer=namer,
+                          skip_attrs=('hx_all', 'hx_calls'))
+        except CanonError as exc:
+            ctx.hits['key_without_object_graph'] += 1
+            graph = ('no-graph', str(exc))
+        return (model, graph)
+
+
+# (handles, length) of the exhaustive loop histories
+LOOP_DEPTH = {'quick': ((2, 4),), 'thorough': ((2, 5), (3, 4))}
+
+
+def loop_history_cases(n, depth):
+    import itertools
+    letters = sorted(loop_letters(n))
+    return [(kind, n, ''.join(w)) for kind in LOOP_KINDS
+            for w in itertools.product(letters, repeat=depth)]
+
+
+def run_loop_history(case):
+    kind, n, word = case
+    driver = LoopDriver(kind, n)
+    letters = loop_letters(n)
+    ctx = driver.initial()
+    driver.check(ctx)
+    for letter in word:
+        if letter not in letters:
+            raise HarnessError(f'malformed case {case!r}')
+        driver.apply(ctx, letters[letter])
+        driver.check(ctx)
+    return {'calls': len(word), 'hits': dict(ctx.hits),
+            'key': (kind, n, word)}
+
+
+def loop_drivers(tier):
+    d = {}
+    for kind in LOOP_KINDS:
+        for n in (1, 2) if tier == 'quick' else (1, 2, 3):
+            drv = LoopDriver(kind, n)
+            d[drv.name] = (drv, dict(max_depth=12))
+    return d
 
 
 def drivers(tier):
@@ -580,8 +1179,30 @@ def run(tier, rep):
         'operations without the world-file accesses, part '
         '"histories-basic"); the fixpoint parts carry the unbounded claim '
         '(conditional on the key argument of DESIGN.md 2.5)',
-        'Loop.switch(clear_*) (desper/loop.py, second anchor) reaches '
-        'Handle.clear() and is exercised by C13, not here',
+        'Loop.switch(clear_*) (desper/loop.py, second anchor): driven on '
+        'loops that are never started; handles load plain World() objects. '
+        'SwitchWorld raised by a processor of a running loop and '
+        'desper.switch() (events, dispatch flags) belong to C13.  After an '
+        'explicit clear() of the handle the loop is running, '
+        'loop.current_world keeps the scrapped world until the next switch: '
+        'the statement is silent, accepted, nothing is demanded of '
+        'loop.current_world in that state.  The order "clears first, then '
+        'one access" of Loop.switch is taken from its docstring',
+        'value "finaliser": relies on CPython reference counting (the '
+        'finaliser runs synchronously when Handle.clear() drops the last '
+        'reference); the harness holds weak references to these values and '
+        'empties the argument lists of the components of discarded world-'
+        'file worlds (cyclic garbage) so that the handle is the only owner. '
+        'Demanded: the finaliser never reads cached == True and then gets, '
+        'from h(), an object no load() of the handle produced, nor a load, '
+        'nor an exception.  cached == True with h() returning the object '
+        'being released is accepted (does not happen on this tree).  Only '
+        'h() is used inside the finaliser, not the map paths',
+        'the state key never names private attributes of Handle; a bare '
+        'object() met by the generic walk (e.g. a "nothing cached" marker) '
+        'is named by its position in the walk; if the walk fails the key '
+        'falls back to the model (hit key_without_object_graph, 0 on this '
+        'tree)',
         'a load() that raises: only the pattern "the first call of an epoch '
         'raises, every later one returns" (loader raise_first), exception '
         'class = a plain Exception subclass taking one message.  Demanded: '
@@ -608,7 +1229,19 @@ def run(tier, rep):
                      failed_load_world_file=1, clear_after_failed_load=1,
                      world_file_reference=1, world_file_two_references=1,
                      world_file_reference_loads=1,
-                     world_file_reference_cached=1)
+                     world_file_reference_cached=1,
+                     eq_always_true_value=1, eq_nonbool_value=1,
+                     finaliser_runs_inside_clear=1,
+                     finaliser_sees_uncached_inside_clear=1,
+                     loop_switch_first=1,
+                     loop_switch_self_clear_current=1,
+                     loop_switch_self_clear_next=1,
+                     loop_switch_self_plain=1,
+                     loop_switch_other_clear_current=1,
+                     loop_switch_clear_next_cached=1,
+                     loop_switch_to_cached=1,
+                     loop_current_handle_cleared_outside=1,
+                     loop_world_is_handle_world=1)
     saved = sys.modules.get(MOD)
     _ensure_env()
     try:
@@ -618,7 +1251,19 @@ def run(tier, rep):
                                    params=driver.params(), **kw)
             closed[name[len('fixpoint/'):]] = dict(states=stats['states'],
                                                    depth=stats['depth'])
+        for name, (driver, kw) in loop_drivers(tier).items():
+            stats = kernel.explore(driver, rep, part=name,
+                                   params=driver.params(), **kw)
+            closed[name] = dict(states=stats['states'], depth=stats['depth'])
         rep.extra['fixpoint_closed'] = closed
+        for n, depth in LOOP_DEPTH[tier]:
+            cases = loop_history_cases(n, depth)
+            kernel.enumerate_cases(
+                run_loop_history, cases, rep, f'loop-histories/{n}',
+                params=dict(length=depth, handles=n, loops=list(LOOP_KINDS),
+                            letters={k: list(v) for k, v
+                                     in loop_letters(n).items()}),
+                chunk=max(200, len(cases) // 400))
         depth = DEPTH[tier]
         cases = history_cases(depth)
         kernel.enumerate_cases(run_history, cases, rep, 'histories',
@@ -650,6 +1295,15 @@ def replay(rec):
             except Violation as v:
                 return v
             return None
+        if rec['part'].startswith('loop-histories'):
+            try:
+                run_loop_history(tuple(rec['case']))
+            except Violation as v:
+                return v
+            return None
+        ds = loop_drivers('thorough')
+        if rec['part'] in ds:
+            return kernel.replay_case(ds[rec['part']][0], rec['case'])
         ds = drivers('thorough')
         if rec['part'] in ds:
             _ensure_env()
